@@ -235,9 +235,12 @@ class Runner:
                 self.count("probe_interrupt_two_chunks_at_once")
         if model.snapshot([dims, args]) != snap:
             raise Violation(PROP, "inputs-changed", self.where, "an input array/index changed during %s evaluation" % mode)
+        # the same objects are used again, faults over: after an interrupted run (recovery) and also after a run
+        # whose callback never raised ("not raising makes it return; a following uninterrupted calculate on the
+        # same objects equals a fresh evaluation")
+        what = ("an interrupted %s" if at else "an uninterrupted %s") % mode
         if not at:
-            return
-        # recovery on the same objects, faults over
+            self.count("reuse_after_uninterrupted_run")
         if via in ("instance", "temporary-bound-method"):
             cube.check_interrupt = None
         else:
@@ -249,7 +252,7 @@ class Runner:
                 out = cubes.evaluate(cube, aggs)
             except Exception as e:
                 raise Violation(PROP, "recovery-raised:" + type(e).__name__, self.where,
-                                "after an interrupted %s run the next serial calculate raised %r" % (mode, e))
+                                "after %s run the next serial calculate raised %r" % (what, e))
             self.count("recovery_calls_serial")
         else:
             res = self.pooled(plan, "rec_", cube, aggs, None)
@@ -257,13 +260,13 @@ class Runner:
                 cls = "no-progress" if isinstance(res.exc, (sched.NoProgress, sched.PoolHang)) else \
                     "recovery-raised:" + type(res.exc).__name__
                 raise Violation(PROP, cls, self.where,
-                                "after an interrupted %s run the next pooled calculate raised %r" % (mode, res.exc))
+                                "after %s run the next pooled calculate raised %r" % (what, res.exc))
             out = res.out
             self.count("recovery_calls_pooled")
         if cubes.freeze(out) != self.ref_frozen:
             raise Violation(PROP, "recovery-differs", self.where,
-                            "after an interrupted %s run, calculate on the same objects differs from a fresh "
-                            "evaluation: output%s" % (mode, cubes.first_difference(self.ref, out)))
+                            "after %s run, calculate on the same objects differs from a fresh "
+                            "evaluation: output%s" % (what, cubes.first_difference(self.ref, out)))
         if model.snapshot([dims, args]) != snap:
             raise Violation(PROP, "inputs-changed", self.where, "an input changed during the recovery evaluation")
 
